@@ -83,6 +83,9 @@ def _child_main(wfd: int, job: dict) -> None:
         faulthandler.enable(file=sys.stderr)
         faulthandler.dump_traceback_later(job.get("timeout", 120) * 0.9, exit=False)
         scratch = os.path.join(core.scratch_root(), f"dsim.{os.getpid()}")
+        if os.path.lexists(scratch):
+            # left behind by a killed run whose pid has been re-used: no live process owns it
+            shutil.rmtree(scratch, ignore_errors=True)
         os.mkdir(scratch)
         os.environ["DSIM_SCRATCH"] = scratch
         if "scenario" in job:
